@@ -6,6 +6,7 @@ import CM.Driver.RelOps
 import CM.Model.Shard
 import CM.Model.Impure
 import CM.Model.Loopback
+import CM.Proofs.Check
 open Lean
 namespace CM
 
@@ -72,6 +73,7 @@ def opVm (j : Json) : P Json := do
             w := { s'.mem.world with callNo := w0.callNo + 1 }
             outs := outs.push (Json.mkObj [("r", r), ("log", .arr (s'.mem.world.log.reverse.map callRecToJson).toArray),
               ("steps", toJson n), ("den", resToJson (vden g dcfg)), ("sig", toJson g.signature),
+              ("graph_ok", .bool g.okB), ("call_ok", .bool (g.callOKB env)),
               ("sizes", toJson (w.stores.map fun s => s.table.length))])
         else if t == "hash" then
           match g.getHash env w0 FUEL with
@@ -84,7 +86,8 @@ def opVm (j : Json) : P Json := do
               | .next s' => (Json.mkObj [("err", .str "internal")], s')
             w := { s'.mem.world with callNo := w0.callNo + 1 }
             outs := outs.push (Json.mkObj [("r", r), ("log", .arr (s'.mem.world.log.reverse.map callRecToJson).toArray),
-              ("steps", toJson n), ("den", hresToJson (hden g dcfg))])
+              ("steps", toJson n), ("den", hresToJson (hden g dcfg)),
+              ("graph_ok", .bool g.okB), ("call_ok", .bool (g.callOKB env))])
         else throw s!"unknown step {t}"
   pure (Json.mkObj [("results", .arr outs)])
 
